@@ -550,3 +550,9 @@ def pre_checks(ctx):
         return [("table:SAMPLE_SIZE>0", "swh.model.discovery.SAMPLE_SIZE = %r: the theorems need a positive integer "
                  "(with 0 the loop never ends, see Example ex_sample_size_zero)" % (v,))]
     return []
+
+
+# functions of /repo whose executed-line coverage by this run is reported in the evidence
+ANCHORS = [('swh/model/discovery.py', 'BaseDiscoveryGraph.*'),
+           ('swh/model/discovery.py', 'RandomDirSamplingDiscoveryGraph.get_sample'),
+           ('swh/model/discovery.py', 'filter_known_objects')]
